@@ -10,6 +10,7 @@ R6 per-frame indexing in the multi-file restart writers
 from __future__ import annotations
 
 import ast
+import itertools
 import re
 
 from ..core import AnalysisError
@@ -282,15 +283,179 @@ def _unit_strings(ctx):
             outs[const(n.args[0])] = const(kwarg(n, "out_units", 2))
     for k, v in want.items():
         ctx.decide(outs.get(k) == v, "C01-R3", rd, rel, cls + ".read", "read converts %s to %s" % (k, v), "", "HDF5 read() returns %s in %r" % (k, outs.get(k)))
-    # NetCDF / ncrst
-    for key, meth in (("nc", "_initialize_headers"), ("ncrst", "_initialize_headers")):
+    _netcdf_layout(ctx)
+    _tagged_input_units(ctx)
+
+
+_NC_UNITS = {"coordinates": "angstroms", "time": "picoseconds", "cell_lengths": "angstroms", "cell_angles": "degrees"}       # AMBER convention, in the names in_units_of uses
+
+
+def _tagged_input_units(ctx):
+    """HDF5TrajectoryFile.write / NetCDFTrajectoryFile.write accept unit-tagged input (a simulation reporter hands over Quantity objects) and normalise
+    it with in_units_of(x, None, U).  Evaluated with that conversion kept symbolic - x given in its own unit `g` becomes x * unit[g] / unit[U] - every
+    array stored is the input expressed in the unit its node / variable is labelled with (the labels are held to the specification above)."""
+    from .. import stores as S, h5model as H, e2e as E
+    from ..tensym import TenSym, Ten, Raised
+    from ..pysym import Unsupported as PUnsupported
+
+    def tagged(ev, call):
+        a = [ev.ex(x) for x in call.args]
+        kw = {k.arg: ev.ex(k.value) for k in call.keywords}
+        q = a[0] if a else kw.get("quantity")
+        u1 = a[1] if len(a) > 1 else kw.get("units_in")
+        u2 = a[2] if len(a) > 2 else kw.get("units_out")
+        if q is None:
+            return q
+        f = E.unit("given" if u1 is None else u1) / E.unit(u2)
+        if isinstance(q, Ten):
+            return Ten(q.shape, [x * f for x in q.data])
+        return ev.lift(q) * f
+    for key, units in (("h5", {H.NODE_OF[f_]: H.UNITS[H.NODE_OF[f_]] for f_ in H.FIELDS}), ("nc", _NC_UNITS)):
         rel, cls = F.rel_cls(key)
-        fn = F.method(ctx, key, meth)
-        s = src(fn)
-        pairs = re.findall(r"setattr\((\w+), 'units', '(\w+)'\)", s) + re.findall(r"(\w+)\.units = '(\w+)'", s)
-        units = [u for _, u in pairs]
-        ctx.decide("angstrom" in units and "degree" in units and "picosecond" in units and not any(u in ("nanometer", "nanometers", "radian") for u in units),
-                   "C01-R3", fn, rel, "%s.%s" % (cls, meth), "AMBER NetCDF unit attributes (angstrom, degree, picosecond)", "", "unit attributes written: %s" % sorted(set(units)))
+        fn = F.method(ctx, key, "write")
+        q = cls + ".write"
+        try:
+            if key == "h5":
+                arr = H.arrays(2, 3, fields=tuple(H.FIELDS))
+                me = H.h5_file(ctx, "w", n_atoms=3)
+                _, exc = H.call(ctx, me, "write", extra_models={"in_units_of": tagged}, **arr)
+                if exc:
+                    raise Raised(exc, exc)
+                stored = {n_: S.stored(nd) for n_, nd in me._nodes.items()}
+                given = {H.NODE_OF[f_]: v_ for f_, v_ in arr.items()}
+            else:
+                arr = H.arrays(2, 3)
+                me = S.netcdf_file(ctx, "w")
+                S.run_method(ctx, key, me, "write", models={"in_units_of": tagged}, **arr)
+                stored = {n_: S.stored(v_) for n_, v_ in me._handle.variables.items()}
+                given = dict(arr)
+        except Raised as e:
+            ctx.undecided("C01-R2", fn, rel, q, "unit-tagged input is stored in the unit of its node", "refused: %s" % (e.exc or e))
+            continue
+        except PUnsupported as e:
+            ctx.undecided("C01-R2", fn, rel, q, "unit-tagged input is stored in the unit of its node", "not evaluable: %s" % e)
+            continue
+        for name, u in sorted(units.items()):
+            f = E.unit("given") / E.unit(u)
+            got, inp = stored.get(name), given.get(name)
+            ok = isinstance(got, Ten) and inp is not None and len(got.data) == len(inp.data) and all(a_ == b_ * f for a_, b_ in zip(got.data, inp.data))
+            how = ""
+            if not ok and isinstance(got, Ten) and got.data and inp is not None:
+                how = "%s[0] given in unit g is stored as %s; the node is labelled %s" % (name, got.data[0], u)
+            elif not ok:
+                how = "nothing is stored under %s" % name
+            ctx.decide(ok, "C01-R2", fn, rel, q, "unit-tagged %s is stored in %s (the unit of its node)" % (name, u), "", how)
+
+
+# the AMBER NetCDF conventions (trajectory 1.0 rev. B, restart 1.0): variable -> (type, dimensions, units).  This is the format's "stated precision":
+# a trajectory file holds single-precision coordinates and times, a restart file doubles.
+_NC_SPEC = {
+    "nc": ("AMBER", {"frame": None, "spatial": 3, "atom": "N"}, {"cell_spatial": 3, "cell_angular": 3, "label": 5}, {
+        "coordinates": ("float", ("frame", "atom", "spatial"), "angstrom", "set_coordinates"), "time": ("float", ("frame",), "picosecond", "set_time"),
+        "cell_lengths": ("double", ("frame", "cell_spatial"), "angstrom", "set_cell"), "cell_angles": ("double", ("frame", "cell_angular"), "degree", "set_cell"),
+        "spatial": ("char", ("spatial",), None, "set_coordinates"), "cell_spatial": ("char", ("cell_spatial",), None, "set_cell"), "cell_angular": ("char", ("cell_angular", "label"), None, "set_cell")}),
+    "ncrst": ("AMBERRESTART", {"spatial": 3, "atom": "N"}, {"cell_spatial": 3, "cell_angular": 3, "label": 5}, {
+        "coordinates": ("double", ("atom", "spatial"), "angstrom", "set_coordinates"), "time": ("double", ("time",), "picosecond", "set_time"),
+        "cell_lengths": ("double", ("cell_spatial",), "angstrom", "set_cell"), "cell_angles": ("double", ("cell_angular",), "degree", "set_cell"),
+        "spatial": ("char", ("spatial",), None, "set_coordinates"), "cell_spatial": ("char", ("cell_spatial",), None, "set_cell"), "cell_angular": ("char", ("cell_angular", "label"), None, "set_cell")}),
+}
+_NC_TYPES = {"d": "double", "f8": "double", "double": "double", "float64": "double", "<f8": "double", ">f8": "double", "f": "float", "f4": "float", "float32": "float", "float": "float", "<f4": "float",
+             ">f4": "float", "c": "char", "S1": "char", "char": "char", "i": "int", "i4": "int", "int32": "int"}
+
+
+def _netcdf_layout(ctx):
+    """_initialize_headers of NetCDFTrajectoryFile / AmberNetCDFRestartFile evaluated (sa/tensym.py) on a model handle that records createDimension /
+    createVariable / attribute assignments, for every combination of the set_* flags: each variable the flags ask for is created with the type, the
+    shape (by dimension length; `frame` unlimited, `atom` the caller's count) and the units attribute of the convention, and no other numeric one."""
+    from ..tensym import TenSym, Obj, Raised
+    from ..pysym import Unsupported as PUnsupported
+    NA = 7
+    for key in ("nc", "ncrst"):
+        rel, cls = F.rel_cls(key)
+        fn = F.method(ctx, key, "_initialize_headers")
+        q = "%s._initialize_headers" % cls
+        conv, dims_always, dims_cell, spec = _NC_SPEC[key]
+        per_var = {}
+        undec = None
+        n_combo = 0
+        for flags in itertools.product((True, False), repeat=2):
+            kw = dict(set_coordinates=True, set_time=flags[0], set_cell=flags[1])
+            n_combo += 1
+            dims, made, vars_ = {}, {}, {}
+
+            def create_dimension(name, n, _d=dims):
+                _d[name] = n
+
+            def create_variable(name, type_, dimensions=(), *a_, _m=made, _vs=vars_, **k_):
+                v = Obj(tag="variable " + str(name), units=None, _lenient=True)
+                v._setitem = lambda self_, k2, x2: None
+                _m[name] = (type_, tuple(dimensions), v)
+                _vs[name] = v
+                return v
+            handle = Obj(tag="netcdf handle", variables=None, _lenient=True)
+            handle.createDimension, handle.createVariable = create_dimension, create_variable
+
+            handle.variables = vars_
+            me = Obj(tag=cls, _handle=handle, _lenient=True)
+            me.flush = lambda: None
+            ts = TenSym({}, models={"datetime.now": lambda ev, c: "NOW", "socket.gethostname": lambda ev, c: "HOST", "list": lambda ev, c: list(ev.pyval(ev.ex(c.args[0]))),
+                                    "np.asarray": lambda ev, c: ev.ex(c.args[0])})
+            ts.module_env = {"mdtraj": Obj(__version__="V", version=Obj(version="V", _lenient=True), _lenient=True), "__version__": "V"}
+            try:
+                ts.run_fn(fn, self=me, n_atoms=NA, **kw)
+            except Raised as e:
+                undec = "refused with %s: %s" % (kw, e.exc or e)
+                continue
+            except PUnsupported as e:
+                undec = "not evaluable with %s: %s" % (kw, e)
+                continue
+            want_dims = dict(dims_always)
+            if kw["set_cell"]:
+                want_dims.update(dims_cell)
+            if key == "ncrst" and kw["set_time"]:
+                want_dims["time"] = 1
+            size = lambda d_: (NA if want_dims.get(d_) == "N" else want_dims.get(d_, "?"))
+            got_size = lambda d_: (None if dims.get(d_, "?") in (0, None) else dims.get(d_, "?"))
+            for d_, n_ in want_dims.items():
+                w_ = NA if n_ == "N" else n_
+                if d_ not in dims:
+                    per_var.setdefault("dimension " + d_, []).append("%s: the dimension is not created" % kw)
+                elif got_size(d_) != w_:
+                    per_var.setdefault("dimension " + d_, []).append("%s: created with length %s, the convention has %s" % (kw, dims[d_], "unlimited" if w_ is None else w_))
+                else:
+                    per_var.setdefault("dimension " + d_, [])
+            for name, (typ, vdims, units, flag) in spec.items():
+                probs = per_var.setdefault(name, [])
+                if not kw[flag]:
+                    if name in made and typ != "char":
+                        probs.append("%s: created although %s is off" % (kw, flag))
+                    continue
+                if name not in made:
+                    probs.append("%s: the variable is not created" % kw)
+                    continue
+                t_, d_, v_ = made[name]
+                tn = _NC_TYPES.get(getattr(t_, "__name__", None) or (ts.pyval(t_) if not isinstance(t_, str) else t_), str(t_))
+                if tn != typ:
+                    probs.append("created as %s, the convention stores %s as %s%s" % (tn, name, typ, " (values are narrowed on assignment)" if (tn, typ) == ("float", "double") else ""))
+                if [got_size(x_) for x_ in d_] != [size(x_) for x_ in vdims]:
+                    probs.append("%s: dimensions %s of lengths %s, the convention has %s" % (kw, d_, [dims.get(x_, "?") for x_ in d_], vdims))
+                if units is not None and ts.pyval(getattr(v_, "units", None)) != units:
+                    probs.append("units attribute %r, the convention has %r" % (getattr(v_, "units", None), units))
+            extra = [n_ for n_ in made if n_ not in spec]
+            if extra:
+                per_var.setdefault("no other variable", []).append("%s: also creates %s" % (kw, extra))
+            got_conv = ts.pyval(getattr(handle, "Conventions", None))
+            per_var.setdefault("Conventions attribute", [])
+            if got_conv != conv:
+                per_var["Conventions attribute"].append("Conventions = %r, the convention has %r" % (got_conv, conv))
+        if undec:
+            ctx.undecided("C01-R3", fn, rel, q, "AMBER NetCDF layout", undec)
+            continue
+        for name, probs in sorted(per_var.items()):
+            sp = spec.get(name)
+            desc = ("%s: %s%s%s (AMBER convention; %d flag combinations)" % (name, sp[0], list(sp[1]), ", units " + sp[2] if sp[2] else "", n_combo)) if sp else "%s (AMBER convention)" % name
+            uniq = list(dict.fromkeys(probs))
+            ctx.decide(not probs, "C01-R3", fn, rel, q, desc, "", "; ".join(uniq[:2]))
 
 
 # ---------------------------------------------------------------------------------------------------
